@@ -1,6 +1,7 @@
 """SmartAccount (C03; context-rule registry part of C20): the multisig-smart-account example driven through
-its management entry points and `try_invoke_contract_check_auth`, with a byte-deciding verifier and logging
-policy contracts as collaborators."""
+its management entry points, `try_invoke_contract_check_auth` (crafted payload, signatures, contexts) and
+end-to-end invocations authorized by genuine entries, with a byte-deciding verifier, logging policy contracts
+and always-yes accounts (delegated signers) as collaborators."""
 from common import set_field
 
 NAME = "SmartAccount"
@@ -9,6 +10,12 @@ NAME = "SmartAccount"
 def _c_check_ok(ev):
     """a failed check reported as successful"""
     if ev["op"]["op"] == "check" and ev["res"] == "fail":
+        return set_field(ev, ["res"], "ok")
+
+
+def _c_e2e_ok(ev):
+    """a refused end-to-end invocation reported as successful"""
+    if ev["op"]["op"] == "e2e" and ev["res"] == "fail":
         return set_field(ev, ["res"], "ok")
 
 
@@ -151,11 +158,11 @@ MODEL = dict(
     ],
     quick=dict(sample=4000, drive_runs=320, drive_len=40),
     thorough=dict(sample=None, drive_runs=4000, drive_len=60),
-    need=[("check", "ok"), ("check", "fail"), ("init", "ok"), ("add_rule", "ok"), ("add_rule", "fail"), ("rm_rule", "ok"),
+    need=[("check", "ok"), ("check", "fail"), ("e2e", "ok"), ("e2e", "fail"), ("init", "ok"), ("add_rule", "ok"), ("add_rule", "fail"), ("rm_rule", "ok"),
           ("rm_rule", "fail"), ("upd_name", "ok"), ("upd_vu", "ok"), ("upd_vu", "fail"), ("add_signer", "ok"),
           ("add_signer", "fail"), ("rm_signer", "ok"), ("rm_signer", "fail"), ("add_policy", "ok"), ("add_policy", "fail"),
           ("rm_policy", "ok"), ("rm_policy", "fail")],
-    selftest=[_c_check_ok, _c_check_fail, _c_enf_rule, _c_enf_twice, _c_scope, _c_count, _c_signer_list, _c_type_list,
+    selftest=[_c_check_ok, _c_e2e_ok, _c_check_fail, _c_enf_rule, _c_enf_twice, _c_scope, _c_count, _c_signer_list, _c_type_list,
               _c_dup_accepted, _c_id_reused],
 )
 SERVES = {
